@@ -145,7 +145,7 @@ class Gen5(P.Gen):
         shared = [n for n in ("a", "g", "id") if ("t", n) in st["cols"] and ("u", n) in st["cols"]]
         if not shared:
             return None
-        n_ = r.choice(shared)
+        n_ = "a" if "a" in shared else r.choice(shared)      # `a` is never a join key: t.a and u.a differ row by row
         nm = self.newname()
         # variant "both": t.N and u.N are both used behind the split (the duplicate gets a generated name nothing defines);
         # variant "one": only u.N is used there (the reference is emitted as the bare name N, which denotes t.N in the CTE)
@@ -154,6 +154,8 @@ class Gen5(P.Gen):
         st["steps"].append(P.Step("derive", "derive {%s = %s}" % (nm, P.prql_expr(e)), "TDerive [(Some %d%%N, %s)]" % (P.nid(nm), P.coq_expr(e))))
         st["cols"] = st["cols"] + [(None, nm)]
         f = ("bin", "Or", ("bin", "Gt", ("col", "u", n_), ("lit", 0)), ("isnull", ("col", "u", n_), False))
+        if not both:
+            f = ("bin", r.choice(["Ge", "Lt"]), ("col", "u", n_), ("lit", r.choice([1, 2])))
         if r.random() < 0.5:
             f = ("bin", "And", f, ("bin", "Or", ("bin", "Ne", ("col", None, nm), ("lit", 99)), ("isnull", ("col", None, nm), False)))
         return P.Step("joinboth", "filter %s" % P.prql_expr(f), "TFilter %s" % P.coq_expr(f), shared=n_, both=both)
@@ -536,7 +538,7 @@ def run():
     add(["casealias"], False, k=4 * m)
     add(["derive", "casealias"], False, k=4 * m)
     add(["group_take"], False, k=4 * m)
-    add(["join", "joinboth"], False, k=6 * m)                  # t.N in a derive, u.N in a filter behind the split (N in both tables)
+    add(["join", "joinboth"], False, k=10 * m)                  # t.N in a derive, u.N in a filter behind the split (N in both tables)
     add(["unnamedjoin"], False, k=8 * m)                       # joined sub-pipeline with two un-named columns: reaching the result / behind a closing select
     add(["sort", "unnamedjoin"], False, rename=True, k=4 * m)
     add(["derive", "group_win", "exclude"], False, k=4 * m)
